@@ -50,7 +50,7 @@ VARIABLES
     swhen,      \* s.when: None = zero time
     timerAt,    \* deadline of the armed timer, None = stopped / fired
     tick,       \* a value is waiting in timer.C
-    pc,         \* main loop: "select" | "woken"
+    pc,         \* main loop: "select" | "woken" (took the tick) | "again" (inside the inner for, after a pass that left something due)
     wk,         \* [Workers -> [st, it, stale]]  st: idle | recv | exec | ckpt | park
     wof,        \* the id -> worker map (fixed at Init)
     pend,       \* the API call in progress (NoOp if none)
@@ -67,12 +67,34 @@ implvars == <<swhen, timerAt, tick, pc>>
 vars == <<now, queue, nextTime, swhen, timerAt, tick, pc, wk, wof, pend, napi, active, expNext, lastCk, ran, ckAll, bad>>
 
 (* ---- schedules ---- *)
-(* "until": a cron expression with a year field has a LAST occurrence (here: the multiples of e up  *)
-(* to end); after it cron.Next fails ("could not fulfil schedule") and NextOcc is None.              *)
+(* Model time 0 is 2023-12-31T23:59:48Z: second 12 is at once a day, a week (Monday), a 36 h, an hour     *)
+(* boundary of the grid Time.Truncate works on (multiples of the period since Go's zero time).            *)
+Boundary == 12
+(* "every": "@every Ns", relative to the previous occurrence.                                             *)
+(* "unit":  "@every 1d | 1w | 1d12h | 1mo | 1y" - e is the period in seconds as options.Duration           *)
+(*          evaluates it at that date (mo = 31 d, y = 366 d); relative like every, but NewSchedule aligns  *)
+(*          lastScheduled to the period grid first (Align) and that is what the task is scheduled from.    *)
+(* "cron":  "*/N * * * * * *", aligned.                                                                    *)
+(* "until": a cron expression with a year field has a LAST occurrence: the multiples of e from 0 (end      *)
+(*          before the boundary: "48-(48+end)/N 59 23 31 12 * 2023") or from the boundary (year 2024) up   *)
+(*          to end; after it cron.Next fails ("could not fulfil schedule") and NextOcc is None.            *)
 NextOcc(c, from) ==
-    IF c.k = "every" THEN from + c.e                 \* "@every Ns": relative to the previous occurrence
-    ELSE LET n == ((from \div c.e) + 1) * c.e        \* cron "*/N * * * * * *": aligned
-         IN  IF c.k = "until" /\ n > c.end THEN None ELSE n
+    IF c.k \in {"every", "unit"} THEN from + c.e
+    ELSE LET n  == ((from \div c.e) + 1) * c.e
+             lo == IF c.k = "until" /\ c.end >= Boundary THEN Boundary ELSE 0
+             m  == IF c.k = "until" /\ n < lo THEN lo ELSE n
+         IN  IF c.k = "until" /\ m > c.end THEN None ELSE m
+
+(* NewSchedule("@every P", t) returns t truncated to a multiple of P since Go's zero time (as HEAD does it:  *)
+(* lastScheduledAt.Truncate(every.DurationFrom(lastScheduledAt))).  Residue = (time 0 since zero time) mod P *)
+Residue(P) ==
+    CASE P = 86400    -> 86388        \* 1d     (12 s before midnight)
+      [] P = 604800   -> 604788       \* 1w     (2024-01-01 is a Monday, so is 0001-01-01)
+      [] P = 129600   -> 129588       \* 1d12h  (17 733 240 h since zero time = 36 * 492 590)
+      [] P = 2678400  -> 1814388      \* 1mo = 31 d here: the grid is a 31-day grid since year 1 (2023-12-11), not the month
+      [] P = 31622400 -> 28425588     \* 1y = 366 d here: 2023-02-06
+      [] OTHER        -> 0            \* N s with N | 6
+Align(c, t) == IF c.k \in {"every", "unit"} THEN t - ((Residue(c.e) + t) % c.e) ELSE t
 
 MkItem(id, c, nx) == [id |-> id, when |-> nx + c.o, next |-> nx, c |-> c]
 HasNext(x) == NextOcc(x.c, x.next) # None
@@ -216,8 +238,9 @@ LateChoices == { L \in SUBSET { x \in DueItems : wk[wof[x.id]].st = "park" } :
                     \A x, y \in L : wof[x.id] = wof[y.id] => x = y }
 PassSet == FirstSet        \* the deterministic part (used by the generator's quiescent schedule)
 
+Awake == pc \in {"woken", "again"}
 LoopPassWith(L) ==
-    /\ pc = "woken"
+    /\ Awake
     /\ IF queue = {}
        THEN /\ swhen' = None /\ pc' = "select"
             /\ UNCHANGED <<queue, nextTime, timerAt, wk, expNext, active, ran, bad>>
@@ -231,14 +254,14 @@ LoopPassWith(L) ==
                ELSE LET m == MinItem(queue') IN
                       /\ swhen' = m.when
                       /\ IF m.when > now THEN timerAt' = m.when /\ pc' = "select"
-                                         ELSE UNCHANGED timerAt /\ pc' = "woken"     \* something is still due: go round again
+                                         ELSE UNCHANGED timerAt /\ pc' = "again"     \* something is still due: go round again (s.mu is released in between)
     /\ UNCHANGED <<now, tick, wof, pend, napi, lastCk, ckAll>>
 
 LoopPass == \E L \in LateChoices : LoopPassWith(L)
 LoopPassFirst == LoopPassWith({})
 
 (* a pass that changes nothing: the loop is spinning on a due item whose worker is busy *)
-Spinning == pc = "woken" /\ queue # {} /\ MinItem(queue).when <= now /\ PassSet = {} /\ swhen = MinItem(queue).when
+Spinning == Awake /\ queue # {} /\ MinItem(queue).when <= now /\ PassSet = {} /\ swhen = MinItem(queue).when
 
 (* ------------------------------ workers ----------------------------- *)
 WorkerStart(w) ==
@@ -290,7 +313,7 @@ FairSpec == Spec /\ Fairness
 TypeOK ==
     /\ now \in 0..MaxClock
     /\ \A x \in queue : x.id \in Ids /\ x.when = x.next + x.c.o
-    /\ pc \in {"select", "woken"}
+    /\ pc \in {"select", "woken", "again"}
     /\ \A w \in Workers : wk[w].st \in {"idle", "recv", "exec", "ckpt", "park"}
 
 (* Ref: per scheduling epoch *)
@@ -311,7 +334,7 @@ QueueMatchesRef ==
                    ELSE ~\E x \in queue : x.id = i
 (* a due, dispatchable item never waits for a clock advance: the loop is awake, about to wake, or the timer is due *)
 NeverStranded ==
-    (\E x \in queue : x.when <= now) => (pc = "woken" \/ tick \/ TimerDue \/ pend # NoOp)
+    (\E x \in queue : x.when <= now) => (Awake \/ tick \/ TimerDue \/ pend # NoOp)
 
 (* Stronger readings, evaluated as observations only (expected to fail): *)
 NeverRerunAcrossEpochs == "rerun" \notin bad      \* an occurrence runs at most once even across re-Schedule
@@ -324,4 +347,29 @@ ApiReturns == (pend # NoOp) ~> (pend = NoOp)
 DueQueued(i) == \E x \in queue : x.id = i /\ x.when <= now
 EventuallyRuns ==
     \A i \in Ids : <>[](DueQueued(i) /\ pend = NoOp) => []<><<expNext'[i] # expNext[i]>>_vars
+
+(* Schedule and Release take s.mu for one bounded critical section and never wait for an execution: *)
+(* they return even if an Executor.Execute call never does (fairness WITHOUT WorkerFinish).         *)
+FairnessNoFinish ==
+    /\ WF_vars(ApiDo) /\ WF_vars(TimerFire) /\ WF_vars(LoopWake) /\ WF_vars(LoopPass)
+    /\ \A w \in Workers : WF_vars(WorkerStart(w)) /\ WF_vars(WorkerCkpt(w)) /\ WF_vars(WorkerPark(w))
+NoFinishSpec == Spec /\ FairnessNoFinish
+ApiNeverWaitsForExecution == (pend # NoOp) ~> (pend = NoOp)
+
+(* Variant, expected counterexample: the loop keeps s.mu while it goes round again (one Lock with a  *)
+(* deferred Unlock around the inner for).  The lock regions of Schedule/Release cannot start while   *)
+(* a due item waits for a worker that is inside Execute.                                             *)
+HeldApiDo == pc # "again" /\ ApiDo
+HeldNext ==
+    \/ \E op \in ApiOps : ApiCall(op)
+    \/ HeldApiDo
+    \/ \E d \in 1..MaxClock : AdvanceClock(d)
+    \/ TimerFire
+    \/ LoopWake
+    \/ LoopPass
+    \/ \E w \in Workers : WorkerStart(w) \/ WorkerFinish(w) \/ WorkerCkpt(w) \/ WorkerPark(w)
+HeldNoFinishSpec ==
+    /\ Init /\ [][HeldNext]_vars
+    /\ WF_vars(HeldApiDo) /\ WF_vars(TimerFire) /\ WF_vars(LoopWake) /\ WF_vars(LoopPass)
+    /\ \A w \in Workers : WF_vars(WorkerStart(w)) /\ WF_vars(WorkerCkpt(w)) /\ WF_vars(WorkerPark(w))
 =============================================================================
